@@ -24,7 +24,7 @@ var (
 // deliver state.  Cases branch from it with CacheContext and never write it back.
 func Base() (*World, sdk.Context) {
 	baseOnce.Do(func() {
-		baseWorld = NewWorld(GenesisSpec{})
+		baseWorld = NewWorld(BaseSpec())
 		baseCtx = baseWorld.OpenFast()
 	})
 	return baseWorld, baseCtx
